@@ -276,7 +276,7 @@ def worker(job):
                 asyncio.run(withwrite_case(part, r))
             for k in range(max(3, nrandom // 3)):
                 with guarded(part, 'C20 threading lock', dict(scenario='threading-rwlock', seed=seed)):
-                    threading_case(part, r)
+                    threading_case(part, r, m)
     finally:
         m.close()
     return part.result()
@@ -435,13 +435,60 @@ async def withwrite_case(part, r):
         backends.rmtree(d)
 
 
-def threading_case(part, r):
+class RecMutex:
+    """stands in for one `threading.Lock` of the real lock and records, atomically with its taking effect, every acquisition and release
+    together with the thread that performed it (the trace is replayed through the Lean `TRW` model, about which C20_thread_exclusion,
+    C20_thread_no_deadlock and C20_thread_terminates are proved)"""
+
+    def __init__(self, inner, name, trace, tmutex):
+        self.inner, self.name, self.trace, self.tmutex = inner, name, trace, tmutex
+
+    def acquire(self, blocking=True, timeout=-1):
+        import threading
+        import time
+        while True:
+            with self.tmutex:
+                if self.inner.acquire(False):
+                    self.trace.append(f'{threading.current_thread().name}:a{self.name}')
+                    return True
+            if not blocking:
+                return False
+            time.sleep(0.0004)
+
+    def release(self):
+        import threading
+        with self.tmutex:
+            self.trace.append(f'{threading.current_thread().name}:r{self.name}')
+            self.inner.release()
+
+    def locked(self):
+        return self.inner.locked()
+
+    def __enter__(self):
+        self.acquire()
+        return self
+
+    def __exit__(self, *exc):
+        self.release()
+
+
+def threading_case(part, r, m=None):
     """the threading twin of the read-write lock (what the maildir backend gets from the executor subsystem), on real threads: one task per
     thread, arrival order and leaving order scripted with events; who is inside is sampled by the tasks themselves"""
     import threading
     import time
     from pymap.concurrent import ReadWriteLock
     lock = ReadWriteLock.for_threading()
+    trace = []
+    tmutex = threading.Lock()
+    recorded = False
+    if m is not None and hasattr(lock, '_read_lock') and hasattr(lock, '_write_lock') and hasattr(lock, '_counter'):
+        try:
+            lock._read_lock = RecMutex(lock._read_lock, 'R', trace, tmutex)
+            lock._write_lock = RecMutex(lock._write_lock, 'W', trace, tmutex)
+            recorded = True
+        except AttributeError:
+            recorded = False
     n = r.choice([3, 3, 4])
     kinds = [r.choice('rrw') for _ in range(n)]
     if 'w' not in kinds:
@@ -477,7 +524,7 @@ def threading_case(part, r):
             errors.append((i, repr(exc)))
         finally:
             loop.close()
-    threads = {i: threading.Thread(target=run, args=(i,), daemon=True) for i in range(n)}
+    threads = {i: threading.Thread(target=run, args=(i,), daemon=True, name=str(i)) for i in range(n)}
     for i in order:
         threads[i].start()
         time.sleep(0.03)                  # arrivals are ordered; whoever is inside stays a little
@@ -494,6 +541,19 @@ def threading_case(part, r):
                        signature='thr-overlap')
     if errors:
         part.violation('monitor', f'threading read-write lock: a section ended with {errors[0]} (kinds {kinds}, arrival order {order})', case, signature='thr-error')
+    if recorded:
+        # tie: the recorded mutex operations are a run of the TRW model, and end where the model ends
+        with tmutex:
+            evs = list(trace)
+        out = m.ask('trw ' + ';'.join('1' if k == 'r' else '0' for k in kinds) + ' ' + (','.join(evs) or '-'))
+        real = f'r={int(lock._read_lock.locked())} w={int(lock._write_lock.locked())} c={lock._counter}'
+        part.stat('threading-rwlock-trace-events', len(evs))
+        if not out.startswith('ok '):
+            part.violation('correspondence', f'threading read-write lock: the recorded mutex operations {evs} are not a run of the TRW model: {out} (kinds {kinds}, arrival order {order})',
+                           dict(case, trace=evs), signature='thr-trace')
+        elif not stuck and out[3:] != real:
+            part.violation('correspondence', f'threading read-write lock: after {evs} the lock is in state {real}, the TRW model in {out[3:]} (kinds {kinds})', dict(case, trace=evs),
+                           signature='thr-state')
     if stuck:
         part.violation('monitor', f'threading read-write lock: tasks {stuck} never got the lock although every holder leaves (kinds {kinds}, arrival order {order})', case,
                        signature='thr-deadlock')
